@@ -4,6 +4,7 @@ import L4.Drv.Match
 import L4.Drv.Codec
 import L4.Drv.LB
 import L4.Drv.PP
+import L4.Drv.Tls
 open L4 L4.Drv
 
 def dispatch (line : String) : String :=
@@ -14,6 +15,7 @@ def dispatch (line : String) : String :=
   | "codec" :: rest => (doCodec.run rest).1
   | "lb" :: rest => (doLB.run rest).1
   | "pp" :: rest => (doPP.run rest).1
+  | "hello" :: rest => (doHello.run rest).1
   | _ => "bad-op"
 
 partial def loop (h : IO.FS.Stream) (out : IO.FS.Stream) : IO Unit := do
